@@ -796,7 +796,16 @@ func runC08(r *Run) {
 		{Kind: "+", BP: 7, Fixity: oper.INFIX_R}, // same name, two roles registered in turn: the later wins
 		{Kind: "++", BP: 11, Fixity: oper.POSTFIX}, {Kind: "$", BP: 0.5, Fixity: oper.INFIX_L}, {Kind: "%%", BP: 1, Fixity: oper.INFIX_R},
 	})
-	tables := []*table{builtin, custom, words}
+	// symbolic operators of three and four characters extending shorter ones that are registered EARLIER, with
+	// identifier-like operators in between: the table sort has to put every longer spelling first
+	long := newTable("long", []oper.Operator{
+		{Kind: "<", BP: 6, Fixity: oper.INFIX_N}, {Kind: "and", BP: 4, Fixity: oper.INFIX_L}, {Kind: "<=", BP: 6, Fixity: oper.INFIX_N},
+		{Kind: "=", BP: 2, Fixity: oper.INFIX_R}, {Kind: "*", BP: 8, Fixity: oper.INFIX_L}, {Kind: "not", BP: 10, Fixity: oper.PREFIX},
+		{Kind: "**", BP: 9, Fixity: oper.INFIX_R}, {Kind: "<=>", BP: 6.5, Fixity: oper.INFIX_N}, {Kind: "xor", BP: 3, Fixity: oper.INFIX_L},
+		{Kind: "<==>", BP: 2.5, Fixity: oper.INFIX_N}, {Kind: "&", BP: 5, Fixity: oper.INFIX_L}, {Kind: "&&", BP: 4.5, Fixity: oper.INFIX_L},
+		{Kind: "&&&", BP: 3.5, Fixity: oper.INFIX_L}, {Kind: "+", BP: 7, Fixity: oper.INFIX_L}, {Kind: "+++", BP: 7.5, Fixity: oper.INFIX_L}, {Kind: "++", BP: 11, Fixity: oper.POSTFIX},
+	})
+	tables := []*table{builtin, custom, words, long}
 
 	// corpus
 	for _, c := range []string{"true == false == true || false", "a < a < a ? a : a", "1 + 2 * foo(3)", "a.b(c).d[e]", "[1,2,]", "[1:2,]", "{p:1,}", "f(1,)",
